@@ -8,13 +8,38 @@ SPEC = {
         {"name": "c19wb-histogram", "pkg": "./vdaf/prio3/histogram", "run": "^TestVerifC19", "whitebox": True, "shards": {"quick": 1, "thorough": 4}},
         {"name": "c19wb-mhcv", "pkg": "./vdaf/prio3/mhcv", "run": "^TestVerifC19", "whitebox": True, "shards": {"quick": 1, "thorough": 4}},
     ],
-    "rule": "TODO",
-    "assumptions": COMMON_ASSUME,
+    "rule": "batch case = (instance in {Count, Sum, SumVec, Histogram, MultihotCountVec}, admissible parameters [Sum bound from {1,2,255,2^32,2^62,2^63-1}, 2^k-1/2^k/2^k+1 or random < 2^63; "
+            "SumVec length x bits (1..64) x chunk; Histogram length x chunk; MultihotCountVec length x max weight x chunk; chunk lengths 1, sqrt, dividing, non-dividing, = total, > total], "
+            "context, 2/3/16/4..15 aggregators (255/254/128/17 in the thorough tier), verify key, 1..8 valid measurements incl. the extremes with edge-biased nonces and sharding randomness, "
+            "0..3 altered reports and 0..1 invalid measurements interleaved with the valid ones), every message crossing the aggregator boundary in marshalled form; "
+            "constructor case = (instance, one of the three named degenerate arguments [chunk length 0, 0 or 1 aggregators, Sum bound >= 2^63], otherwise admissible parameters); "
+            "white-box case = (instance parameters, valid encoded measurement, 0 or 1 invalidating edit, 1/2/3/16 shares) proved, shared, queried and decided directly on the FLP. "
+            "non-trivial = batch with more than two aggregators or an extreme measurement; an altered report or invalid measurement that was evaluated (and refused); a degenerate constructor call; a white-box FLP decision. "
+            "distinct by FNV-64 of (sub-check, instance description, measurements, nonces, randomness, verify key, alteration label)",
+    "assumptions": COMMON_ASSUME + [
+        "soundness error of the proof system (at most about 2*1024/2^64 per altered report for the 64-bit field, far less for the 128-bit field) is ignored: an altered report accepted by chance would be a false alarm",
+        "'rejected' means: a decoder refuses the bytes, or PrepInit / PrepSharesToPrep / PrepNext returns an error at one aggregator at least (such a report is dropped by all); the classes are counted separately",
+        "nonces are unique per report and helper seeds are not reused across reports when a share of one report is spliced into another (otherwise the splice is a replay of a valid report and nothing is asserted)",
+        "ref/prio3xof (XofTurboShake128 and the share / joint-randomness derivations, on ref/keccak + math/big) is validated against the draft's XofTurboShake128, Prio3Sum_1 and Prio3Histogram_1 vectors and RFC 9861",
+    ],
     "budget": {"quick": 900, "thorough": 3600},
 }
 
 MANIFEST = {
-    "technique": "TODO",
-    "text": "TODO",
-    "note": "TODO",
+    "technique": "property-based testing (rapid) against a plain-integer model: whole Prio3 runs (shard, prepare at every aggregator, aggregate, unshard) for all five instances with every message marshalled and "
+                 "unmarshalled between the parties; metamorphic rejection of format-aware single-field alterations of every message; enumeration-by-generation of the three degenerate constructor arguments; "
+                 "share and joint-randomness derivations recomputed with an independent XofTurboShake128 reference; white-box FLP soundness/completeness runs with a proof consistent with an invalid measurement",
+    "text": "Generated-input search. (R) For generated parameters, 2..16 (thorough: up to 255) aggregators, verify keys and batches of 1..8 valid measurements, Unshard must equal the aggregate computed with plain integers "
+            "(when it is below the modulus and fits 64 bits); per report the output shares must add up to the measurement; the same batch run on Go values without marshalling must agree; leader share + specified helper "
+            "expansions must equal the specified encoding, public share and prep message must equal the specified joint-randomness parts and seed (reference: ref/prio3xof). Constructors must return an error - neither "
+            "panic nor succeed - for chunk length 0, fewer than two aggregators, or a Sum bound >= 2^63, and must succeed on admissible parameters. (M) Reports altered in one field (leader measurement / proof element, "
+            "blind, helper seed, swapped / copied / foreign shares, public-share part, nonce at one aggregator, nonce everywhere for joint-randomness instances, prep-share element / joint-randomness part, prep message, "
+            "any length change, and edits making the sum of shares a non-bit, out-of-range, two-hot, zero-hot or over-weight measurement) must be refused during preparation and the aggregate of the remaining reports "
+            "must be unchanged; invalid measurements handed to Shard must be refused by the client or rejected in preparation. (I) marshal(unmarshal(b)) == b for every message type at every step. "
+            "White box, the validity circuit of each instance must accept every valid and refuse every invalidated encoded measurement when the proof is generated for that very measurement (element index biased to the last chunk). "
+            "Exploration is the right level: the domain (parameters x batches x randomness x alterations) is unbounded and the oracle is exact per case.",
+    "note": "trusts math/big, ref/keccak and ref/prio3xof (self-tested against the draft's vectors and RFC 9861); statistical soundness error of the FLP is ignored; "
+            "not asserted, only counted: a nonce changed consistently at all aggregators for Count/Sum, a public-share part altered only for the aggregator that owns it (the draft lets it be overwritten), "
+            "splices between reports that share a nonce or helper seeds, aggregates >= 2^64 or >= the modulus, Shard of an invalid measurement returning an error or panicking (refused at the client); "
+            "the proof share's additive consistency is only covered through verification, not recomputed; never establishes absence",
 }
